@@ -125,7 +125,7 @@ def run(chk):
            'numqi.channel.hf_channel_to_choi_op', 'numqi.channel.choi_op_to_bloch_map', 'numqi.channel.hf_dephasing_kraus_op',
            'numqi.channel.hf_depolarizing_kraus_op', 'numqi.channel.hf_amplitude_damping_kraus_op', 'numqi.gellmann.matrix_to_gellmann_basis')
     chk.register_replayer('c12', replay)
-    chk.out_of_claim('the eigen-decomposition inside choi_op_to_kraus_op (np.linalg.eigh enters by its contract C = V diag(lambda) V^dag; eigenvalues strictly between 0 and zero_eps are dropped by design: claimed for dropped eigenvalues equal to 0); trace distance, fidelity, entropies, relative entropy and every monotonicity statement (eigen-decompositions, logarithms); torch backend of functions other than kraus_op_to_choi_op / apply_choi_op / apply_kraus_op / apply_super_op (the others are NumPy-only code)')
+    chk.out_of_claim('the eigen-decomposition inside choi_op_to_kraus_op (np.linalg.eigh enters by its contract C = V diag(lambda) V^dag; eigenvalues strictly between 0 and zero_eps are dropped by design: claimed for dropped eigenvalues equal to 0); the value LAPACK returns inside trace distance, fidelity, entropies, relative entropy (their code around LAPACK is claimed in the state-measure slice) and every monotonicity statement; torch backend of functions other than kraus_op_to_choi_op / apply_choi_op / apply_kraus_op / apply_super_op (the others are NumPy-only code)')
     sizes = [(din, dout, N) for din in (1, 2, 3) for dout in (1, 2, 3) for N in (1, 2, 3)]
     if quick:
         sizes = [s for s in sizes if s[0] * s[1] * s[2] <= 8 or s in ((3, 2, 2), (2, 3, 2), (3, 3, 1))]
